@@ -263,6 +263,9 @@ pub fn execute(case: &Value, scratch: &str) -> Outcome {
     if SINK_APIS.contains(&api.as_str()) {
         return execute_sink(case, &api);
     }
+    if case["real"].is_object() {
+        return execute_real(case, scratch, &api);
+    }
     let mut out = Outcome::default();
     let book = build_book(case);
     let password = case["password"].as_str().unwrap_or("pw").to_string();
@@ -688,6 +691,19 @@ pub fn cases(run_seed: u64, tier: &str, scratch: &str) -> Vec<Value> {
             out.push(c);
         }
     }
+    // (d) cross-check tier against the real kernel: child processes under a real RLIMIT_FSIZE and with a
+    // real SIGKILL at a call boundary
+    let nreal = if thorough { 12 } else { 2 };
+    let n_events = o.record["n_events"].as_u64().unwrap_or(4).max(1);
+    for k in 0..nreal {
+        let mut c = base.clone();
+        if k % 2 == 0 {
+            c["real"] = json!({"fsize": fr.below(total.max(1) + 1)});
+        } else {
+            c["real"] = json!({"kill_at": fr.below(n_events + 1), "phase": fr.below(2)});
+        }
+        out.push(c);
+    }
     // (c) random multi-fault plans
     let nmulti = if thorough { 60 } else { 10 };
     for _ in 0..(if enc { nmulti / 5 } else { nmulti }) {
@@ -713,5 +729,155 @@ pub fn cases(run_seed: u64, tier: &str, scratch: &str) -> Vec<Value> {
         c["faults"] = serde_json::to_value(fs).unwrap();
         out.push(c);
     }
+    out
+}
+
+
+// ------------------------------------------------------------------------------------------------
+// cross-check tier: the same saves in a child process against the real kernel — a real RLIMIT_FSIZE
+// (SIGXFSZ ignored) instead of forged short writes / EFBIG, and a real SIGKILL at a call boundary
+// instead of reading the destination in-process. No result is forged here; the shim only counts calls.
+// ------------------------------------------------------------------------------------------------
+
+fn call_api(api: &str, book: &umya::Spreadsheet, case: &Value, dest: &str, from: &str, password: &str, entropy_seed: u64) -> Result<(), String> {
+    let call = || -> Result<(), String> {
+        let p = std::path::Path::new(dest);
+        match api {
+            "write" => umya::writer::xlsx::write(book, p).map_err(|e| format!("{:?}", e)),
+            "write_light" => umya::writer::xlsx::write_light(book, p).map_err(|e| format!("{:?}", e)),
+            "csv" => umya::writer::csv::write(book, p, Some(&csv_option(case))).map_err(|e| format!("{:?}", e)),
+            "write_pw" => umya::writer::xlsx::write_with_password(book, p, password).map_err(|e| format!("{:?}", e)),
+            "write_pw_light" => umya::writer::xlsx::write_with_password_light(book, p, password).map_err(|e| format!("{:?}", e)),
+            "set_password" => umya::writer::xlsx::set_password(std::path::Path::new(from), p, password).map_err(|e| format!("{:?}", e)),
+            _ => Err("unknown api".into()),
+        }
+    };
+    if is_encrypted(api) {
+        let mut er = Rng::new(entropy_seed);
+        umya::verif_hooks::with_entropy(Box::new(move |b: &mut [u8]| er.fill(b)), call)
+    } else {
+        call()
+    }
+}
+
+/// entry point of `usim child --case FILE`: performs the save for real and prints one result line
+pub fn child_main(case: &Value) -> i32 {
+    let api = case["api"].as_str().unwrap_or("write").to_string();
+    let root = case["real"]["root"].as_str().unwrap_or("").to_string();
+    let ext = if is_csv(&api) { "csv" } else { "xlsx" };
+    let dest = format!("{}/out.{}", root, ext);
+    let from = format!("{}/in.xlsx", root);
+    let book = build_book(case);
+    let password = case["password"].as_str().unwrap_or("pw").to_string();
+    crate::shim::set_thread_hash_seed(get_u64(case, "hash_seed"));
+    let plan: Vec<Fault> = match case["real"]["kill_at"].as_u64() {
+        Some(at) => vec![Fault::Kill { at, phase: case["real"]["phase"].as_u64().unwrap_or(0) as u8 }],
+        None => vec![],
+    };
+    if let Some(limit) = case["real"]["fsize"].as_u64() {
+        unsafe {
+            libc::signal(libc::SIGXFSZ, libc::SIG_IGN);
+            let rl = libc::rlimit { rlim_cur: limit, rlim_max: limit };
+            libc::setrlimit(libc::RLIMIT_FSIZE, &rl);
+        }
+    }
+    shim::arm(ShimState::new(&root, &dest, plan));
+    let r = guarded(|| call_api(&api, &book, case, &dest, &from, &password, get_u64(case, "entropy_seed")));
+    let st = shim::disarm();
+    let returned = match &r {
+        Ok(Ok(())) => "ok".to_string(),
+        Ok(Err(e)) => format!("err:{}", e.chars().take(80).collect::<String>()),
+        Err(p) => format!("panic:{}", p.chars().take(120).collect::<String>()),
+    };
+    // stdout may be limited by RLIMIT_FSIZE if redirected to a file; the parent reads a pipe
+    println!("{}", json!({"returned": returned, "events": st.map(|s| s.events.len()).unwrap_or(0)}));
+    0
+}
+
+fn execute_real(case: &Value, scratch: &str, api: &str) -> Outcome {
+    let mut out = Outcome::default();
+    let book = build_book(case);
+    let password = case["password"].as_str().unwrap_or("pw").to_string();
+    let reference = match make_reference(api, &book, case) {
+        Ok(r) => r,
+        Err(e) => {
+            out.harness_error = Some(e);
+            return out;
+        }
+    };
+    let dest_existing = case["dest"].as_str().unwrap_or("existing") == "existing";
+    let n = DIR_COUNTER.fetch_add(1, Ordering::Relaxed);
+    let root = format!("{}/c13r-{}-{}", scratch, std::process::id(), n);
+    let _ = std::fs::remove_dir_all(&root);
+    if std::fs::create_dir_all(&root).is_err() {
+        out.harness_error = Some("mkdir failed".into());
+        return out;
+    }
+    let ext = if is_csv(api) { "csv" } else { "xlsx" };
+    let dest = format!("{}/out.{}", root, ext);
+    let old: Vec<u8> = if is_csv(api) { b"old,file\r\n1,2\r\n".to_vec() } else { old_bytes() };
+    if dest_existing {
+        std::fs::write(&dest, &old).unwrap();
+    }
+    if api == "set_password" {
+        std::fs::write(format!("{}/in.xlsx", root), &reference.bytes).unwrap();
+    }
+    let mut c2 = case.clone();
+    c2["real"]["root"] = json!(root);
+    let case_file = format!("{}/case.json", root);
+    std::fs::write(&case_file, c2.to_string()).unwrap();
+    let exe = std::env::current_exe().unwrap();
+    let res = std::process::Command::new(exe).arg("child").arg("--case").arg(&case_file).stdout(std::process::Stdio::piped()).stderr(std::process::Stdio::null()).output();
+    let (killed, returned) = match res {
+        Ok(o) => {
+            use std::os::unix::process::ExitStatusExt;
+            let sig = o.status.signal();
+            let line = String::from_utf8_lossy(&o.stdout).to_string();
+            let ret = serde_json::from_str::<Value>(line.trim()).ok().and_then(|v| v["returned"].as_str().map(|s| s.to_string()));
+            (sig == Some(libc::SIGKILL), ret)
+        }
+        Err(e) => {
+            out.harness_error = Some(format!("cannot spawn child: {}", e));
+            return out;
+        }
+    };
+    let content: crate::shim::Content = std::fs::read(&dest).ok();
+    let class = match &content {
+        None => "absent".to_string(),
+        Some(b) if dest_existing && *b == old => "old".to_string(),
+        Some(b) => match complete_new(api, b, &reference, &password) {
+            Ok(()) => "new".to_string(),
+            Err(e) => format!("partial({} bytes): {}", b.len(), e),
+        },
+    };
+    let dest_kind = if dest_existing { "existing" } else { "absent" };
+    let mode = if case["real"]["kill_at"].is_u64() { "kill" } else { "rlimit" };
+    let allowed = class == "new" || (dest_existing && class == "old") || (!dest_existing && class == "absent");
+    if !allowed {
+        let kind = if class == "absent" { "missing" } else { "partial" };
+        out.violate(Verdict::new(
+            "C13",
+            "C13:dest-damaged",
+            &[("api", api), ("dest", dest_kind), ("state", kind)],
+            format!("real kernel ({}): after the child {} the destination is {}", mode, if killed { "was killed" } else { "returned" }, class),
+        ));
+    }
+    match returned.as_deref() {
+        Some("ok") if class != "new" => out.violate(Verdict::new("C13", "C13:ok-but-incomplete", &[("api", api), ("fault", "file_limit")], format!("real RLIMIT_FSIZE: {} returned Ok but the destination is {}", api, class))),
+        Some(r) if r.starts_with("panic") => out.violate(Verdict::new("C13", "C13:panic-instead-of-error", &[("api", api), ("fault", "file_limit")], format!("real RLIMIT_FSIZE: {}", r))),
+        None if !killed => out.harness_error = Some("child produced no result and was not killed".into()),
+        _ => {}
+    }
+    *out.faults_fired.entry(format!("real:{}", mode)).or_insert(0) += 1;
+    if killed {
+        out.probe("real_sigkill_delivered");
+    }
+    if mode == "rlimit" && returned.as_deref().map(|r| r.starts_with("err")).unwrap_or(false) {
+        out.probe("real_rlimit_reported_as_err");
+    }
+    out.nontrivial = true;
+    out.signature = format!("real|{}|{}|{:x}|{}", api, dest_kind, crate::rng::fnv(&case["ops"].to_string()), case["real"]);
+    out.record = json!({"returned": returned, "killed": killed, "dest": class, "reference_len": reference.bytes.len()});
+    let _ = std::fs::remove_dir_all(&root);
     out
 }
